@@ -141,17 +141,20 @@ pass the call-by-call check against `deliver id fs`: each returns a prefix of th
 order, unchanged), at least one byte when the buffer is non-empty, never a byte of another id or type;
 end-of-stream comes only when nothing is owed and a close/half-close frame or the end of the connection
 justifies it, and then for ever; an error only when nothing is owed and no end-of-stream is due.  When
-an end-of-stream is due the connection is not marked broken. -/
-theorem C10_reader_main (id : Bytes) (fs : List Frame) (hwf : ∀ f ∈ fs, f.WF)
+an end-of-stream is due the connection is not marked broken.
+This holds for EVERY tracker `trk`: a stream built without one (`NewFrameStream`) or with one
+(`NewFrameStreamWithTracker`) that answers anything whatsoever — closed, active, unknown — about any
+foreign tunnel: whatever the tracker says, a foreign frame contributes no data and no end-of-stream. -/
+theorem C10_reader_main (trk : Tracker) (id : Bytes) (fs : List Frame) (hwf : ∀ f ∈ fs, f.WF)
     (chunks : List Bytes) (tail : Tail) (hflat : chunks.flatten = encodeAll fs)
     (rw : Bool) (ps : List Nat) (fuel : Nat) (hfuel : fs.length < fuel) :
     let r0 : FS := { FS.init id ⟨chunks, tail⟩ with writeEOF := rw }
     let eofOk := (deliver id fs).2 || tail == .eof
-    checkReads eofOk (!eofOk) (deliver id fs).1 ps (readLoop fuel r0 ps).1 = true ∧
-    (eofOk = true → (readLoop fuel r0 ps).2.broken = false) := by
+    checkReads eofOk (!eofOk) (deliver id fs).1 ps (readLoop trk fuel r0 ps).1 = true ∧
+    (eofOk = true → (readLoop trk fuel r0 ps).2.broken = false) := by
   intro r0 eofOk
   have hinv : Inv r0 fs tail := ⟨hflat, rfl, hwf, rfl⟩
-  have h := readLoop_checks tail fuel ps r0 fs hinv hfuel eofOk rfl
+  have h := readLoop_checks trk tail fuel ps r0 fs hinv hfuel eofOk rfl
   have hp : pend r0 fs = (deliver id fs).1 := by simp [pend, r0, FS.init]
   rw [hp] at h
   exact h
@@ -163,11 +166,11 @@ id different from ours) —, every chunking `cut` of the wire, either ending of 
 sequence of read-buffer sizes: every `Write` before the close is accepted in full and every later one
 refused; the bytes the peer's `Read` calls return are exactly the bytes written for this tunnel before
 its first close/half-close, unchanged, in order, complete before the end-of-stream, which then persists;
-frames of other tunnels and of unknown types are never delivered; neither end marks the connection
-broken. -/
-theorem C10_stream_main (me : Bytes) (evs : List Ev) (hwf : ∀ e ∈ evs, evWF me e = true)
+frames of other tunnels and of unknown types are never delivered, whatever the receiver's tracker
+`trk` (none, or any answers at all) says about them; neither end marks the connection broken. -/
+theorem C10_stream_main (trk : Tracker) (me : Bytes) (evs : List Ev) (hwf : ∀ e ∈ evs, evWF me e = true)
     (cut : Bytes → List Bytes) (hcut : ∀ b, (cut b).flatten = b) (tail : Tail) (rw : Bool) (ps : List Nat) :
-    holdsStream me evs tail ps (runStream me evs cut tail rw ps) = true := by
+    holdsStream me evs tail ps (runStream trk me evs cut tail rw ps) = true := by
   obtain ⟨fs, h1, h2, h3, h4, h5⟩ :=
     runWriter_open me (FS.init (tunnelIDFromString me) ⟨[], .eof⟩) evs rfl rfl hwf
   simp only [FS.init, List.nil_append] at h1 h2
@@ -175,7 +178,7 @@ theorem C10_stream_main (me : Bytes) (evs : List Ev) (hwf : ∀ e ∈ evs, evWF 
     simp only [FS.init]
     rw [h1]
     exact Nat.lt_succ_of_le (encodeAll_length_ge fs)
-  have hr := C10_reader_main (tunnelIDFromString me) fs h3
+  have hr := C10_reader_main trk (tunnelIDFromString me) fs h3
     (cut (runWriter (FS.init (tunnelIDFromString me) ⟨[], .eof⟩) evs).2.out) tail
     (by rw [hcut]; simp only [FS.init]; exact h1) rw ps _ hfuel
   simp only at hr
@@ -201,6 +204,20 @@ theorem C10_holds_meaning (me : Bytes) (evs : List Ev) (tail : Tail) (ps : List 
   obtain ⟨⟨⟨h1, h2⟩, -⟩, -⟩ := h
   exact ⟨h1, checkReads_prefix _ _ _ _ _ h2⟩
 
+/-- **Stream on a pooled connection**: whatever frames `residual` the previous tunnel left on the idle
+connection (any frames at all, ours-looking ones included), whatever the tracker says: `Get` hands out
+the idle connection only if nothing is pending on it, and the scenario of OUR tunnel that then runs on
+the connection handed out satisfies the stream property — no residual byte is delivered, none is
+missing, the end-of-stream is intact. -/
+theorem C10_pool_reuse (trk : Tracker) (me : Bytes) (residual evs : List Ev)
+    (hwf : ∀ e ∈ evs, evWF me e = true)
+    (cut : Bytes → List Bytes) (hcut : ∀ b, (cut b).flatten = b) (tail : Tail) (rw : Bool) (ps : List Nat) :
+    holdsStream me evs tail ps (runPool trk me residual evs cut tail rw ps).st = true ∧
+    ((runPool trk me residual evs cut tail rw ps).reused = true ↔
+      (runWriter (FS.init (tunnelIDFromString me) ⟨[], .eof⟩) residual).2.out = []) := by
+  refine ⟨C10_stream_main trk me evs hwf cut hcut tail rw ps, ?_⟩
+  simp [runPool, isHealthy]
+
 theorem expected_writes_closeWrite (me : Bytes) (ups : List Bytes) :
     expected me (ups.map Ev.write ++ [.closeWrite]) = (ups.flatten, true) := by
   induction ups with
@@ -219,14 +236,14 @@ theorem C10_forward_partial (me : Bytes) (ups : List Bytes) (down : Bytes) :
     (runForward me ups down).up <+: ups.flatten ∧
     ((runForward me ups down).done = true →
       (runForward me ups down).up = ups.flatten ∧ (runForward me ups down).down = down) := by
-  have hu := C10_stream_main me (ups.map Ev.write ++ [.closeWrite])
+  have hu := C10_stream_main none me (ups.map Ev.write ++ [.closeWrite])
     (by intro e he
         rcases List.mem_append.mp he with he | he
         · obtain ⟨u, -, rfl⟩ := List.mem_map.mp he; rfl
         · simp only [List.mem_singleton] at he; subst he; rfl)
     (fun b => [b]) (by simp) .eof false
     (List.replicate (ups.length + ups.flatten.length / crossnode.MaxFrameSize + 2) crossnode.MaxFrameSize)
-  have hd := C10_stream_main me [.write down, .close]
+  have hd := C10_stream_main none me [.write down, .close]
     (by intro e he; simp only [List.mem_cons, List.not_mem_nil, or_false] at he; rcases he with rfl | rfl <;> rfl)
     (fun b => [b]) (by simp) .eof false
     (List.replicate (down.length / crossnode.MaxFrameSize + 3) crossnode.MaxFrameSize)
@@ -267,7 +284,7 @@ reader of tunnel A — the stream property fails without the `evWF` hypothesis. 
 theorem C10_id_truncation_witness :
     idA ≠ idB ∧ tunnelIDFromString idA = tunnelIDFromString idB ∧
     holdsStream idA [.write [1, 2], .inject idB crossnode.FrameTypeData [9, 9, 9], .closeWrite] .eof [8, 8, 8]
-      (runStream idA [.write [1, 2], .inject idB crossnode.FrameTypeData [9, 9, 9], .closeWrite]
+      (runStream none idA [.write [1, 2], .inject idB crossnode.FrameTypeData [9, 9, 9], .closeWrite]
         (fun b => [b]) .eof false [8, 8, 8]) = false := by
   decide +kernel
 
@@ -281,7 +298,7 @@ example : ∀ e ∈ sampleEvs, evWF idA e = true := by decide +kernel
 
 /-- …and the model really delivers `1 2 3 4` then EOF under 1-byte chunks and 2-byte reads (a test). -/
 example :
-    (runStream idA sampleEvs (fun b => b.map (fun x => [x])) .err true [2, 2, 2, 2, 2]).reads =
+    (runStream (some fun s => s == [0x78]) idA sampleEvs (fun b => b.map (fun x => [x])) .err true [2, 2, 2, 2, 2]).reads =
       [.data [1, 2], .data [3], .data [4], .eof, .eof] := by decide +kernel
 
 example : (⟨tunnelIDFromString idA, crossnode.FrameTypeData, [1, 2, 3]⟩ : Frame).WF := by decide +kernel
